@@ -4,10 +4,10 @@ for f in sys.argv[1:]:
     v=d['violation']
     print("=====",f, v.get('oracle'), v.get('kind'), d.get('tags'))
     for o in d.get('ops',[]): print("  ",json.dumps(o))
-    for k in ('cls','format','pipeline','pipelines','class_pipelines','documents','filters','faults','disabled','knobs'):
-        if d.get(k): print(f"  {k}:",json.dumps(d[k])[:900])
+    for k in ('cls','format','pipeline','pipelines','class_pipelines','documents','refs','dangling','schedule','filters','faults','disabled','knobs'):
+        if d.get(k): print(f"  {k}:",json.dumps(d[k])[:1200])
     g,w=json.dumps(v.get('got')),json.dumps(v.get('want'))
     i=next((i for i,(a,b) in enumerate(zip(g,w)) if a!=b),min(len(g),len(w)))
     print("  first diff at",i)
-    print("  got :",g[max(0,i-200):i+300])
-    print("  want:",w[max(0,i-200):i+300])
+    print("  got :",g[max(0,i-200):i+400])
+    print("  want:",w[max(0,i-200):i+400])
